@@ -21,6 +21,9 @@ args = [a for a in args if a not in (tier, SCRATCH) and (override is None or a !
 names = args or sorted(d for d in os.listdir(os.path.join(ROOT, "seeded")) if os.path.isdir(os.path.join(ROOT, "seeded", d)))
 resf = os.path.join(ROOT, "seeded", "results.json")
 results = json.load(open(resf)) if os.path.exists(resf) else {}
+if SCRATCH:
+    head = subprocess.run(["git", "-C", "/repo", "rev-parse", "HEAD"], capture_output=True, text=True).stdout.strip()
+    subprocess.run(["git", "-C", SCRATCH, "checkout", "-q", "--detach", head])   # the scratch worktree follows /repo's HEAD
 if subprocess.run(["git", "-C", REPO, "status", "--porcelain", "--untracked-files=no"], capture_output=True, text=True).stdout.strip():
     print("refusing: /repo has uncommitted changes"); sys.exit(2)
 for n in names:
